@@ -274,7 +274,8 @@ def xy_points(extra=None):
              "v": [F(x), F(y), F(3), F(-1)], "u": [F(1), F(2), F(4), F(8)], "m": [F(k) for k in range(1, 7)],
              "der(v)": [F(10), F(20), F(30), F(40)], "n": [F(3)], "b": [F(1 if x > y else 0)], "n2": [F(4)],
              "ma": [F(1), F(2), F(3), F(4)], "mb": [F(x), F(y), F(7), F(-2)], "mc": [F(0), F(-1), F(5), F(2)],
-             "der(mc)": [F(1), F(0), F(2), F(-2)], "mg": [F(k) for k in range(6)], "mh": [F(2 * k - 3) for k in range(6)]}
+             "der(mc)": [F(1), F(0), F(2), F(-2)], "mg": [F(k) for k in range(6)], "mh": [F(2 * k - 3) for k in range(6)],
+             "v3": [F(x), F(-3, 2), F(y)], "u3": [F(1), F(-2), F(5, 2)]}
         p.update(extra or {})
         pts.append(p)
     return pts
@@ -316,6 +317,11 @@ def sweep_cases():
         decl="Real x, y, z, w; parameter Integer n = 3; parameter Integer n2 = 2; Real v[4]; Real u[4];")
     add("square matrix equations", "  ma = mb;\n  der(mc) = x * mb - ma;\n  mb = ma .* mb + mc;\n  mg = mh;",
         decl="Real x, y, z, w; Real ma[2,2]; Real mb[2,2]; Real mc[2,2]; Real mg[2,3]; Real mh[2,3];")
+    add("matrix rows against vectors", "  mg[1,:] = abs(v3);\n  mg[2,:] = max(v3, u3) .* v3;\n  mh[1,:] = floor(v3 / 2) - u3;\n  mh[2,:] = u3;\n  z = sum(mg[:,2]);",
+        decl="Real x, y, z, w; Real mg[2,3]; Real mh[2,3]; Real v3[3]; Real u3[3];")
+    pk = ("package PkA\n  function curve\n    input Real a;\n    input Real c;\n    output Real b;\n  algorithm\n    b := a * c + 1;\n  end curve;\nend PkA;\n"
+          "package PkB\n  function curve\n    input Real a;\n    input Real c;\n    output Real b;\n  algorithm\n    b := a - 2 * c;\n  end curve;\nend PkB;\n")
+    add("same-named functions in two packages", "  z = PkA.curve(x, y) + 3 * PkB.curve(x, y);\n  w = PkB.curve(PkA.curve(y, 2), x);", funcs=pk)
     add("matrix", "  m[1,2] = x;\n  m[2,3] = 2 * y;\n  m[:,1] = u[1:2];\n  z = m[2,1];\n  w = m[1,3];",
         decl="Real x, y, z, w; Real m[2,3]; Real u[4];")
     add("for plain", "  for i in 1:4 loop\n    v[i] = i * x + u[i];\n  end for;", decl="Real x, y, z, w; Real v[4]; Real u[4];")
